@@ -159,6 +159,10 @@ theorem unpack_fails_without_equals :
     parseEquationText ['(', '\n', '`', '`', '`', '\n', 'y', '\n', '`', '`', '`', '\n', ')'] = .err .unpackFailure := by
   decide
 
+/-- A backticked fragment that contains the `=` is one match of the whole statement but no term of either side:
+    two fields, one argument (IndexError).  This is what the guard `TermsAlign` of `parse_error_classes` excludes. -/
+theorem format_fails_straddling_term : parseEquationText ['Y', '`', '=', '`'] = .err .formatFailure := by decide
+
 /-! ## Error classes -/
 
 /-- Where the model's errors come from: everything is a ParserError except the two internal failures, each with
